@@ -183,7 +183,7 @@ var (
 	pairItems []pairItem
 )
 
-const pairVariants = 2 * 4 * 3 * 4 * 3 // order x direction x cluster level x face x letter choice
+const pairVariants = 4 * 4 * 3 * 4 * 3 // order x direction x cluster level x face x letter choice
 
 func pairInit() {
 	pairOnce.Do(func() {
@@ -260,7 +260,7 @@ var pairDirs = [4]int{hbref.DirLTR, hbref.DirRTL, hbref.DirTTB, hbref.DirBTT}
 func PairSweepCase(k, v int, sweepFaces [][]string) (Case, string) {
 	pairInit()
 	it := pairItems[k]
-	order, v := v%2, v/2
+	order, v := v%4, v/4
 	dir, v := v%4, v/4
 	cl, v := v%3, v/3
 	facesel, v := v%4, v/4
@@ -270,10 +270,18 @@ func PairSweepCase(k, v int, sweepFaces [][]string) (Case, string) {
 	l1 := a.Letters[(k%7+lsel*n/3)%n]
 	l2 := a.Letters[((k*7+3)%5+(2-lsel)*n/3)%n]
 	var text []rune
-	if order == 0 {
+	switch order {
+	case 0:
 		text = []rune{l1, it.mark, l2}
-	} else {
+	case 1:
 		text = []rune{it.mark, l1, l2, it.mark}
+	case 2:
+		// the same mark on both sides of a COMBINING GRAPHEME JOINER (equal combining classes)
+		text = []rune{l1, it.mark, 0x034F, it.mark, l2}
+	default:
+		// two marks of the alphabet around a CGJ (any order of classes)
+		m2 := a.Marks[(k+1+lsel)%len(a.Marks)]
+		text = []rune{l1, it.mark, 0x034F, m2, l2}
 	}
 	ref := pairFixedFace
 	if fs := sweepFaces[it.alphabet]; facesel < len(fs) {
